@@ -1797,7 +1797,8 @@ SPEC_PSF = _TableSpec(free_unit=('flux_init', 'flux_fit', 'flux_err', 'local_bkg
                       qfit=K('free', rtol=1e-2, atol=1e-3, md=True), cfit=K('free', rtol=1e-2, atol=1e-3, md=True),
                       model_image=K('frame', per_row=False, rtol=1e-2, aamp=3e-2, unit='data'),
                       resid_image=K('frame', per_row=False, rtol=1e-2, aamp=3e-2, unit='data'),
-                      flags=K('free', md=True), n=K('free', per_row=False), window_tie=K('skip'))
+                      flags=K('free', md=True), n=K('free', per_row=False), window_tie=K('skip'),
+                      _err_undefined=K('skip'))
 
 
 def prep_psf(rng, scene):
@@ -1891,6 +1892,12 @@ def run_psf(s, o):
         if 'flags' in t.colnames:
             ill |= (np.asarray(t['flags']).astype(int) & (2 | 4 | 8 | 16 | 32)) != 0
     cond = np.where(ill, np.inf, 1.0)
+    # parameter errors come from the fit covariance scaled by the residual variance: where the residuals are at
+    # rounding level (noise-free / exactly fitted cutouts: qfit < 1e-6, or an error of exactly 0) the *_err columns are
+    # not a function of the scene and are not judged (counted)
+    with np.errstate(invalid='ignore'):
+        err_undefined = (np.abs(col('qfit')) < 1e-6) | (col('x_err') == 0) | (col('y_err') == 0) | (col('flux_err') == 0)
+    out['_err_undefined'] = err_undefined
     out['window_tie'] = bool(out['window_tie'] or ill.any())
     x, y = np.asarray(t['x_init'], float), np.asarray(t['y_init'], float)
     h = max(o['fit_shape']) / 2.0 + 2.0 + (o['localbkg'][1] if o['localbkg'] else 0.0) + o['aperture_radius']
